@@ -58,11 +58,11 @@ Next ==
      /\ n' = k
      /\ IF r.op = "new"
         THEN /\ lo' = r.lo /\ hi' = r.hi /\ pool' = InitPool(r.lo, r.hi)
-             /\ IF NewClauses(r) = {} THEN TRUE ELSE PrintT(<< "VIOL", k, NewClauses(r) >>)
+             /\ IF NewClauses(r) = {} THEN TRUE ELSE PrintT(<< "VIOL", ToJson([n |-> k, c |-> NewClauses(r)]) >>)
         ELSE LET c == Clauses(pool, lo, hi, r)
                  e == Expect(pool, lo, hi, r)
              IN  /\ UNCHANGED << lo, hi >>
-                 /\ IF c = {} THEN TRUE ELSE PrintT(<< "VIOL", k, c >>)
+                 /\ IF c = {} THEN TRUE ELSE PrintT(<< "VIOL", ToJson([n |-> k, c |-> c]) >>)
                  \* re-synchronise from the log when it is a legal representation, else keep the expectation
                  /\ pool' = IF r.panic THEN pool
                             ELSE IF RepOK(IvsOf(r), lo, hi) THEN IvsOf(r) ELSE e.pool
